@@ -82,6 +82,8 @@ class Gen:
         self.sites = 0
         self.funcs = []
         self.whiles = []
+        self.nmods = 0
+        self.cur_mod = None
 
     def id(self):
         self.nid += 1
@@ -103,9 +105,13 @@ class Gen:
     def simple(self, ctx):
         r = self.r
         k = r.below(100)
-        if k < 50:
+        if k < 45:
             return ["chk", self.site()]
-        if k < 65 and ctx["locals"]:
+        if k < 52:
+            return ["setg"]
+        if k < 60:
+            return ["evg", self.id()]
+        if k < 68 and ctx["locals"]:
             return ["setl", r.choice(ctx["locals"])]
         if k < 80 and ctx["locals"]:
             return ["evl", self.id(), r.choice(ctx["locals"])]
@@ -164,15 +170,23 @@ class Gen:
             self.funcs.append(None)
             how = r.choice(["fn", "fn", "method", "lambda", "fiber"])
             fctx = base_ctx()
+            saved_mod = self.cur_mod
+            if self.cur_mod is None and r.chance(K["p_module"]):
+                # the callee lives in an imported module (its own globals, its own prelude)
+                self.cur_mod = self.nmods
+                self.nmods += 1
+            mod = self.cur_mod
             body = self.block(depth + 1, fctx, budget)
+            self.cur_mod = saved_mod
             if r.chance(0.5):
                 body.append(["ret", self.id()])
-            self.funcs[fi] = {"how": how, "body": body}
+            self.funcs[fi] = {"how": how, "body": body, "mod": mod}
             return ["call", fi, self.id()]
         if k < 80 and self.funcs and depth < 3:
             # call an already generated function again (functions never call themselves: the callee
             # index is always lower than any function being generated, so no recursion)
-            done = [i for i, f in enumerate(self.funcs) if f is not None]
+            done = [i for i, f in enumerate(self.funcs) if f is not None and
+                    (f.get("mod") == self.cur_mod or (self.cur_mod is None))]
             if done:
                 return ["call", r.choice(done), self.id()]
             return self.simple(ctx)
@@ -237,13 +251,14 @@ def gen_nest(seed, feats=None):
         "p_finally": rng.choice([0.3, 0.5, 0.8]),
         "p_rethrow": rng.choice([0.0, 0.15, 0.3]),
         "max_funcs": rng.range(0, 4),
+        "p_module": rng.choice([0.0, 0.3, 0.6]),
     }
     g = Gen(rng, feats, knobs)
     budget = [rng.range(8, 40)]
     wrap = rng.choice(["fn", "fn", "fiber", "method", "script"])
     main = g.block(0, base_ctx(is_func=(wrap != "script")), budget, 2, 5)
-    funcs = [f if f is not None else {"how": "fn", "body": []} for f in g.funcs]
-    return {"main": main, "funcs": funcs, "sites": g.sites, "whiles": g.whiles, "wrap": wrap}
+    funcs = [f if f is not None else {"how": "fn", "body": [], "mod": None} for f in g.funcs]
+    return {"main": main, "funcs": funcs, "sites": g.sites, "whiles": g.whiles, "wrap": wrap, "nmods": g.nmods}
 
 
 # ---- renderer -----------------------------------------------------------------------------------
@@ -253,6 +268,15 @@ class RenderError(Exception):
 
 
 def render(ir):
+    return render_all(ir)[0]
+
+
+def gv_init(mod):
+    return 1000 if mod is None else 2000 + 100 * mod
+
+
+def render_all(ir):
+    """Returns (main source, {module path: source})."""
     out = []
 
     def emit(line, ind):
@@ -321,9 +345,22 @@ def render(ir):
             if fi >= len(ir["funcs"]):
                 raise RenderError("unknown function")
             how = ir["funcs"][fi]["how"]
-            call = {"fn": "f%d()" % fi, "lambda": "f%d()" % fi, "method": "K%d.new().m()" % fi,
-                    "fiber": "Fiber.new(f%d).call()" % fi}[how]
+            cmod = ir["funcs"][fi].get("mod")
+            if cmod is not None and cmod != env["mod"]:
+                if env["mod"] is not None:
+                    raise RenderError("call from one module into another")
+                q = "mod%d." % cmod
+            elif cmod is None and env["mod"] is not None:
+                raise RenderError("module code calling a function of main")
+            else:
+                q = ""
+            call = {"fn": "%sf%d()" % (q, fi), "lambda": "%sf%d()" % (q, fi), "method": "%sK%d.new().m()" % (q, fi),
+                    "fiber": "Fiber.new(%sf%d).call()" % (q, fi)}[how]
             emit('print(("ev", %d, %s));' % (st[2], call), ind)
+        elif k == "setg":
+            emit("gv = gv + 1;", ind)
+        elif k == "evg":
+            emit('print(("ev", %d, gv));' % st[1], ind)
         elif k == "local":
             emit("{", ind)
             emit("var l%d = %d;" % (st[1], st[1] * 7), ind + 1)
@@ -354,25 +391,46 @@ def render(ir):
             raise RenderError("unknown statement %r" % (k,))
 
     check_loops(ir)
+    nmods = ir.get("nmods", 0)
+    fenv = dict(exc=None, locals=[], is_func=True, loop_ok=True, mod=None)
+
+    def emit_funcs(mod):
+        for i, f in enumerate(ir["funcs"]):
+            if f.get("mod") != mod:
+                continue
+            env = dict(fenv, mod=mod)
+            if f["how"] == "method":
+                emit("#[constructor(new)] class K%d {" % i, 0)
+                emit("fn m(self) {", 1)
+                block(f["body"], 2, env)
+                emit("}", 1)
+                emit("}", 0)
+            elif f["how"] == "lambda":
+                emit("var f%d = || {" % i, 0)
+                block(f["body"], 1, env)
+                emit("};", 0)
+            else:
+                emit("fn f%d() {" % i, 0)
+                block(f["body"], 1, env)
+                emit("}", 0)
+
+    modules = {}
+    for m in range(nmods):
+        out = []
+        out.append(PRELUDE)
+        emit("var gv = %d;" % gv_init(m), 0)
+        for w in ir.get("whiles", []):
+            emit("var w%d = 0;" % w, 0)
+        emit_funcs(m)
+        modules["mod%d" % m] = "\n".join(out) + "\n"
+    out = []
     out.append(PRELUDE)
+    emit("var gv = %d;" % gv_init(None), 0)
+    for m in range(nmods):
+        emit('import "mod%d";' % m, 0)
     for w in ir.get("whiles", []):
         emit("var w%d = 0;" % w, 0)
-    fenv = dict(exc=None, locals=[], is_func=True, loop_ok=True)
-    for i, f in enumerate(ir["funcs"]):
-        if f["how"] == "method":
-            emit("#[constructor(new)] class K%d {" % i, 0)
-            emit("fn m(self) {", 1)
-            block(f["body"], 2, dict(fenv))
-            emit("}", 1)
-            emit("}", 0)
-        elif f["how"] == "lambda":
-            emit("var f%d = || {" % i, 0)
-            block(f["body"], 1, dict(fenv))
-            emit("};", 0)
-        else:
-            emit("fn f%d() {" % i, 0)
-            block(f["body"], 1, dict(fenv))
-            emit("}", 0)
+    emit_funcs(None)
     wrap = ir.get("wrap", "fn")
     if wrap == "script":
         block(ir["main"], 0, dict(fenv, is_func=False))
@@ -392,7 +450,7 @@ def render(ir):
             emit('print(("ev", 0, Fiber.new(main).call()));', 0)
         else:
             emit('print(("ev", 0, main()));', 0)
-    return "\n".join(out) + "\n"
+    return "\n".join(out) + "\n", modules
 
 
 def check_loops(ir):
@@ -464,6 +522,9 @@ def model(ir, tape, faults):
     pend_ret = [0]
     probes = Stats()
     cur_ctx = ["body"]
+    G = {None: [gv_init(None)]}
+    for m_ in range(ir.get("nmods", 0)):
+        G[m_] = [gv_init(m_)]
 
     def pick(m):
         if tp[0] < len(tape):
@@ -530,7 +591,9 @@ def model(ir, tape, faults):
                 block(st[2], env)
         elif k == "call":
             f = ir["funcs"][st[1]]
-            fenv = dict(exc=None, locals={}, depth=env["depth"] + 1)
+            fenv = dict(exc=None, locals={}, depth=env["depth"] + 1, mod=f.get("mod"))
+            if f.get("mod") is not None:
+                probes.inc("call_into_module")
             saved = cur_ctx[0]
             try:
                 block(f["body"], fenv)
@@ -553,6 +616,10 @@ def model(ir, tape, faults):
             env2["locals"][st[1]] = cell
             block(st[2], env2)
             ev.append([num(st[1]), num(cell[0])])
+        elif k == "setg":
+            G[env["mod"]][0] += 1
+        elif k == "evg":
+            ev.append([num(st[1]), num(G[env["mod"]][0])])
         elif k == "setl":
             env["locals"][st[1]][0] += 1
         elif k == "evl":
@@ -641,7 +708,7 @@ def model(ir, tape, faults):
             raise exc
 
     outcome = {"ok": True}
-    env0 = dict(exc=None, locals={}, depth=0)
+    env0 = dict(exc=None, locals={}, depth=0, mod=None)
     try:
         try:
             block(ir["main"], env0)
@@ -660,8 +727,10 @@ def model(ir, tape, faults):
 # ---- scenario construction ----------------------------------------------------------------------
 
 def build_scenario(ir, tape, faults, extra=None):
+    src, modules = render_all(ir)
     sc = {"ir": ir, "tape": tape, "faults": faults,
-          "programs": [{"kind": "snippet", "source": render(ir)}]}
+          "programs": [{"kind": "snippet", "source": src}],
+          "fs": {p_: {"source": t_, "reads": []} for p_, t_ in modules.items()}}
     if extra:
         sc.update(extra)
     return sc
@@ -804,12 +873,13 @@ class C08:
     def check_one(self, sc, ctx, stats, top=False):
         ir = sc["ir"]
         try:
-            src = render(ir)
+            src, modules = render_all(ir)
         except RenderError as e:
             return {"stats": stats, "nontrivial": False, "invalid": str(e)}
         exp = model(ir, sc["tape"], sc["faults"])
         sc = dict(sc)
         sc["programs"] = [{"kind": "snippet", "source": src}]
+        sc["fs"] = {p_: {"source": t_, "reads": []} for p_, t_ in modules.items()}
         key = stable_hash([ir, sc["faults"], sc["tape"]])
         nontrivial = bool(exp["fired"]) or exp["probes"].get("throw_stmt", 0) > 0 or exp["probes"].get("failop_stmt", 0) > 0
         stats.merge(exp["probes"])
